@@ -16,7 +16,7 @@ def norm_extra(op, x):
         for p in x:
             m.setdefault(p[0], len(m))
             out.append((m[p[0]], to_str(p[1])))
-        return ('settings', out)
+        return ('settings', out, ';'.join(t for (_, t) in out))       # settings_at(i) = ';'-join (model side)
     if name == 'find':
         return [x[0], x[1]]
     if name == 'eq':
@@ -30,7 +30,7 @@ def norm_extra_impl(op, x):
         for p in x[1]:
             m.setdefault(p[0], len(m))
             out.append((m[p[0]], p[1]))
-        return ('settings', out)
+        return ('settings', out, x[2])
     return x
 
 def first_divergence(ops, recs, answer, fields=OBSERVABLE):
